@@ -849,7 +849,7 @@ func (c *FnCtx) ghostAsserts(st *State, in ssa.Instruction) {
 			continue
 		}
 		if g.cl.Kind == "assert" {
-			c.oblige(st, "ghost", name, pos, cond, "ghost assertion: "+g.cl.Text, g.cl.Tags)
+			c.obligeAlways(st, "ghost", name, pos, cond, "ghost assertion: "+g.cl.Text, g.cl.Tags)
 		} else {
 			c.assumptions["assumed at \""+g.cl.At+"\": "+g.cl.Text] = true
 		}
